@@ -36,6 +36,8 @@ var runners = map[string]func(Config){
 	"C03": runC03,
 	"C04": runC04,
 	"C05": runC05,
+	"C06": runC06,
+	"C07": runC07,
 	"C09": runC09,
 	"C10": runC10,
 	"C13": runC13,
